@@ -180,9 +180,21 @@ func genNode(t *rapid.T, batch bool, idx string) Node {
 		n.Exprs = []*E{genBoolExpr(t, 2)}
 	case "eval":
 		k := rapid.IntRange(1, 3).Draw(t, "nexpr")
+		shadowed := map[string]bool{}
 		for i := 0; i < k; i++ {
-			n.Exprs = append(n.Exprs, genValExpr(t, n.As))
-			n.As = append(n.As, fmt.Sprintf("e%s_%d", idx, i))
+			e := genValExpr(t, n.As)
+			n.Exprs = append(n.Exprs, e)
+			as := fmt.Sprintf("e%s_%d", idx, i)
+			// the last result may take the name of the input field it is computed from (same
+			// type): the new value replaces the field, also in keep() and in a keep list. (Not
+			// for earlier expressions: a later expression that references the field refills the
+			// scope from the point, what then becomes of the earlier result is not documented.)
+			if e.K == "bin" && len(e.A) == 2 && e.A[0].K == "ref" && (e.A[0].N == "i" || e.A[0].N == "f") && strings.Contains("+-*/%", e.N) &&
+				i == k-1 && !shadowed[e.A[0].N] && rapid.IntRange(0, 1).Draw(t, "shadow") == 0 {
+				as = e.A[0].N
+				shadowed[as] = true
+			}
+			n.As = append(n.As, as)
 		}
 		n.Quiet = rapid.Bool().Draw(t, "quiet")
 		n.Keep = rapid.IntRange(0, 2).Draw(t, "keep")
